@@ -21,7 +21,7 @@ def gen(ctx, name, text, simulate=None, depth=None):
     c = "Gen_c20_%s.cfg" % name
     open(ctx.path("spec", c), "w").write(text)
     cf = ctx.path("cases_%s.ndjson" % name)
-    r = ctx.tlc("Gen_c20", c, env={"CASE_FILE": cf}, workers=4, simulate=simulate, depth=depth, timeout=2400,
+    r = ctx.tlc("Gen_c20", c, env={"CASE_FILE": cf, "DICT_FILE": ctx.source_dict()}, workers=4, simulate=simulate, depth=depth, timeout=2400,
                 expect_ok=False)
     if r.invariant_violated or not r.ok:
         which = ""
@@ -73,6 +73,8 @@ def run(ctx):
                           intos="{FALSE, TRUE}"), None, None),
             ("sim", cfg(9, POOLX, POOLX, 4, forms=FORMS, tags="TagsFew", tms=ALLTM, intos="{FALSE, TRUE}"), "num=10", 10),
         ]
+    # the source dictionary as call names (one output column each), plain and under INTO / an omitted time column
+    gparts.append(("dict", cfg(3, '{"a"}', '{"a"}', 1, tms='{"default", "omit"}', intos="{FALSE, TRUE}").replace("SPECIFICATION Spec", "SPECIFICATION DSpec"), None, None))
     for name, text in mparts:
         _, r = gen(ctx, name, text)
         ctx.note("pass M %s: %d field lists satisfy Complete / AliasesVerbatim / Suffixed / Distinct in the design (%.0fs)"
